@@ -95,6 +95,7 @@ func TestCheck(t *testing.T) {
 		}
 	})
 	afterFatalInput(run)
+	uncheckedInvalid(run)
 	run.Assume("an input is judged 'must be FAILED' only if it belongs to a named invalid class; mutated inputs of unknown validity must not crash or hang and, when answered FAILED or with an RPC error, must leave contents, held operations and reference counters unchanged")
 	run.Assume("only inputs that survive a protobuf wire round trip are sent (the wire cannot carry nil list members or invalid UTF-8 in proto3 strings)")
 	run.Finish(fmt.Sprintf("child processes of %d inputs each against a populated server (closed RIB + held operations + a bystander session): structured mutation (1-4 protoreflect mutations: nil/empty sub-messages, out-of-range enums, boundary integers, hostile strings, duplicated/50x list members, cleared lists) of valid AFT operations sent through rib.AddEntry/DeleteEntry and through a Modify stream; the named invalid classes of the property (must be FAILED, state unchanged); enumerated GetRequest/FlushRequest variants. Every input is logged before it is sent. Distinct = by input bytes", batchSize), 500, false)
